@@ -9,10 +9,6 @@ package pe
 //@   prop C12 C19
 //@   safety
 //@   nullable Count, Min, Max
-//@   loop 1 invariant true
-//@   loop 2 invariant true
-//@   loop 3 invariant true
-//@   loop 4 invariant true
 
 // ---- C12: the verifier accepts a submission only if it equals what matching itself selects ----
 
@@ -24,7 +20,6 @@ package pe
 //@ func (PresentationSubmission).Resolve
 //@   prop C12
 //@   assume-benign
-//@   loop 1 invariant true
 //@   call mapupdate #1 requires [no-second-entry-for-a-descriptor] !(arg(1) in arg(0)) && arg(1) == inputDescriptor.Id
 // Nothing has to be presented only for a definition without input descriptors (a definition with
 // descriptors always demands a selection: an empty submission for it is incomplete), and an "all"
@@ -32,7 +27,6 @@ package pe
 //@ func (PresentationDefinition).CredentialsRequired
 //@   prop C12
 //@   pure heap
-//@   loop 1 invariant true
 //@   ensures [nothing-required-only-without-input-descriptors] !result ==> len(presentationDefinition.InputDescriptors) == 0
 //@ func (PresentationDefinition).PresentationSubmissionBuilder
 //@   prop C12
@@ -82,7 +76,6 @@ package pe
 //@   assume-benign
 //@   loop 1 invariant !did(call credential.PresentationSigner #1) || isNilIface(ret(call credential.PresentationSigner #1).1)
 //@   loop 1 invariant len(submissionBuilder.wallets) == len(submissionBuilder.holders) && same(submissionBuilder.presentationDefinition, definition)
-//@   loop 2 invariant true
 //@   loop 3 invariant !did(call (vc.VerifiableCredential).Raw #2) || ret(call (vc.VerifiableCredential).Raw #1) == ret(call (vc.VerifiableCredential).Raw #2)
 //@   call (*PresentationSubmissionBuilder).AddWallet #1 requires [wallet-is-the-signer-and-credentials-of-this-presentation]
 //@        isNilIface(ret(call credential.PresentationSigner #1).1) && same(arg(call credential.PresentationSigner #1, 0), presentation)
@@ -111,8 +104,6 @@ package pe
 //@ func matchFormat
 //@   prop C12
 //@   nullable format
-//@   loop 1 invariant true
-//@   loop 2 invariant true
 //@   ensures [only-designated-formats] result ==> format == nil || len(*format) == 0 || credential.Format() == "" || (*format)[credential.Format()] != nil
 //@   ensures [json-ld-proof-type-listed] result && format != nil && len(*format) > 0 && credential.Format() == vc.JSONLDCredentialProofFormat && len(credential.Proof) > 0 ==>
 //@        did(call matchProofType #1) && ret(call matchProofType #1) == true && same(arg(call matchProofType #1, 1), credential)
@@ -144,7 +135,5 @@ package pe
 //@ func matchFilter
 //@   prop C12 C19
 //@   safety
-//@   loop 1 invariant true
-//@   loop 2 invariant true
 //@   ensures [scalar-type-respected] result.0 && len(filter.Enum) == 0 && typeOf(value) == string ==> filter.Type == "string"
 //@   ensures [non-scalar-matches-only-through-an-element] result.0 && len(filter.Enum) == 0 && !(typeOf(value) == string) && !(typeOf(value) == float64) && !(typeOf(value) == int) && !(typeOf(value) == bool) ==> did(call matchFilter #2) && ret(call matchFilter #2).0 == true
